@@ -1,3 +1,94 @@
-From SV Require Import model.Reply.
-Theorem placeholder : True. Proof. exact I. Qed.
-Print Assumptions placeholder.
+(* C17 - replies survive the wire: encode/parse round trip and exact consumption.
+   Statements only; proofs are in proof/Reply_lemmas.v.  udigit/uspace are the
+   tables of gen/UnicodeTables.v, regenerated from the running Python's `re`. *)
+From Coq Require Import List NArith Bool.
+From SV Require Import lib.Bytes model.Reply gen.UnicodeTables proof.Bytes_lemmas proof.Reply_lemmas proof.Unicode_lemmas.
+Import ListNotations.
+Open Scope N_scope.
+
+(* A reply built with Reply(code, text) -- code 2xx..5xx, text any valid Unicode
+   string that is empty or does not begin with white space -- written with
+   Reply.send, followed by arbitrary bytes t, delivered in ANY segmentation
+   (part of it possibly already in recv_buffer), is parsed back by Reply.recv to
+   the same code and the same text (line breaks normalised to CRLF); exactly the
+   reply's bytes are consumed: what is left in recv_buffer plus the unread
+   chunks is t. *)
+Theorem C17_roundtrip : forall code v t buf chunks,
+  code_2xx_5xx code -> valid_text v -> ns_head uspace v = true -> nonempty_chunks chunks ->
+  buf ++ concat chunks = wire_of (new_reply udigit uspace code v) ++ t ->
+  exists r' buf' chunks',
+    reply_recv udigit uspace buf chunks = GotReply r' buf' chunks' /\
+    r_code r' = code /\
+    get_message r' = norm (get_message (new_reply udigit uspace code v)) /\
+    buf' ++ concat chunks' = t /\ nonempty_chunks chunks'.
+Proof.
+  exact (reply_roundtrip udigit uspace udigit_46 udigit_48 uspace_32 uspace_10 uspace_13 digit_space_disjoint).
+Qed.
+Print Assumptions C17_roundtrip.
+
+(* n pipelined replies are returned one by one, in order, nothing lost between them *)
+Theorem C17_sequence : forall rs t buf chunks,
+  Forall (good_reply uspace) rs -> nonempty_chunks chunks ->
+  buf ++ concat chunks = concat (map (wire1 udigit uspace) rs) ++ t ->
+  exists b' ch', recv_n udigit uspace (length rs) buf chunks = Some (map (shown udigit uspace) rs, b', ch')
+                 /\ b' ++ concat ch' = t.
+Proof.
+  exact (sequence_roundtrip udigit uspace udigit_46 udigit_48 uspace_32 uspace_10 uspace_13 digit_space_disjoint).
+Qed.
+Print Assumptions C17_sequence.
+
+(* The parser's result depends only on the concatenated stream, never on how it
+   was cut into recv() results (incremental = batch), for every outcome. *)
+Theorem C17_segmentation_independent : forall chunks code msgs buf,
+  match recv_loop code msgs buf chunks with
+  | ROk c body b' ch' => recv_loop code msgs (buf ++ concat chunks) [] = ROk c body (b' ++ concat ch') []
+  | RBad b' ch' => recv_loop code msgs (buf ++ concat chunks) [] = RBad (b' ++ concat ch') []
+  | RLost => nonempty_chunks chunks -> recv_loop code msgs (buf ++ concat chunks) [] = RLost
+  end.
+Proof. exact inc_batch. Qed.
+Print Assumptions C17_segmentation_independent.
+
+(* Byte level (IO.send_reply / IO.recv_reply), any three-digit code, any message bytes *)
+Theorem C17_exact_consumption : forall code m t buf chunks, is_code code -> nonempty_chunks chunks ->
+  buf ++ concat chunks = send_reply code m ++ t ->
+  exists buf' chunks', recv_reply buf chunks = ROk code (norm m) buf' chunks' /\ buf' ++ concat chunks' = t.
+Proof. exact send_recv_inc. Qed.
+Print Assumptions C17_exact_consumption.
+
+(* The enhanced status code shown by a reply always has the class of its code *)
+Theorem C17_esc_class : forall r e, get_esc r = Some e ->
+  hd 0 e = code_class r /\ is245 (code_class r) = true.
+Proof. exact esc_class. Qed.
+Print Assumptions C17_esc_class.
+
+(* Never a partial reply: whatever was returned consumed exactly a run of complete
+   reply lines with one and the same code, continuation marks on all but the last *)
+Theorem C17_ok_is_wellformed : forall buf chunks c body b' ch',
+  recv_reply buf chunks = ROk c body b' ch' ->
+  exists pre txts, buf ++ concat chunks = unraw pre ++ b' ++ concat ch' /\
+                   wf_reply_lines c pre txts /\ body = join CRLF txts.
+Proof. exact ok_is_wellformed. Qed.
+Print Assumptions C17_ok_is_wellformed.
+
+(* Malformed shapes raise the bad-reply error *)
+Theorem C17_nonreply_line_is_badreply : forall raw s, nolf raw -> parse_reply_line raw = None ->
+  recv_loop None [] (raw ++ 10 :: s) [] = RBad s [].
+Proof. exact bad_line. Qed.
+Print Assumptions C17_nonreply_line_is_badreply.
+
+Theorem C17_code_mismatch_is_badreply : forall c1 c2 l1 l2 sep2 s, is_code c1 -> is_code c2 -> c1 <> c2 ->
+  nolf l1 -> nolf l2 -> is_sep sep2 = true ->
+  exists rest, recv_loop None [] ((c1 ++ 45 :: l1 ++ [13]) ++ 10 :: (c2 ++ sep2 :: l2 ++ [13]) ++ 10 :: s) [] = RBad rest [].
+Proof. exact code_mismatch. Qed.
+Print Assumptions C17_code_mismatch_is_badreply.
+
+Theorem C17_invalid_utf8_is_badreply : forall buf chunks c body b' ch',
+  recv_reply buf chunks = ROk c body b' ch' -> utf8_dec body = None ->
+  reply_recv udigit uspace buf chunks = BadReply b' ch'.
+Proof. intros buf chunks c body b' ch' H U. unfold reply_recv. rewrite H, U. reflexivity. Qed.
+Print Assumptions C17_invalid_utf8_is_badreply.
+
+(* UTF-8 codec of the model is a codec *)
+Theorem C17_utf8_roundtrip : forall t, valid_text t -> utf8_dec (utf8_enc t) = Some t.
+Proof. exact utf8_dec_enc. Qed.
+Print Assumptions C17_utf8_roundtrip.
